@@ -61,8 +61,9 @@ def wcorner_cf(idx, face):
 class Geo:
     """Evaluator of the arithmetic in calculate_geometry."""
 
-    def __init__(self, fi):
+    def __init__(self, fi, ftf_name='dftf'):
         self.fi = fi
+        self.ftf_name = ftf_name
         self.params = fi.params
         # scalar locals with one definition at function top level
         self.scalar = {}
@@ -177,7 +178,7 @@ class Geo:
                 r = over(base, keys, ir)
                 if r is not None:
                     return r
-            if base == 'dftf' and len(ir) == 2 and \
+            if base == self.ftf_name and len(ir) == 2 and \
                     ir[1].n.t.keys() <= {()}:
                 face = int(ir[1].n.t.get((), 0))
                 return F(ir[0], face)
@@ -370,3 +371,64 @@ def check(ctx, rule, counts):
         'residual %r' % reduce_r3(res).n, 'bundle tiling')
     # ---- bundle totals are the count-weighted sums
     return a
+
+
+def check_ring_chain(ctx, rule):
+    """Concentric duct / bypass rings are placed one after the other, each
+    from the centroid of the previous one: the (previous thickness, current
+    thickness) pairs handed to _get_ring_c2c must chain, with the thicknesses
+    taken between consecutive flat-to-flat boundaries F[0,0] < F[0,1] <
+    F[1,0] < F[1,1] < ... (symbolic duct index)."""
+    fi = ctx.repo.func('subchannel', 'Subchannel._find_duct_bypass_xy')
+    ftf = fi.params[-1]
+    g = Geo(fi, ftf)
+    loops = [n for n in fi.node.body if isinstance(n, ast.For)
+             and isinstance(n.target, ast.Name)]
+    if len(loops) != 1:
+        raise AnalysisError('_find_duct_bypass_xy: ring loop')
+    lp = loops[0]
+    iv = lp.target.id
+    i = Rat.sym('i')
+    ok_range = call_name(lp.iter) == 'range' and len(lp.iter.args) == 2 and \
+        const(lp.iter.args[0]) == 1 and src(lp.iter.args[1]) == \
+        'len(%s)' % ftf
+    ctx.require(ok_range, rule, fi, lp, 'one (bypass, duct) pair per outer '
+                'duct: range(1, len(ftf))',
+                key=fi.full + ' | ring loop range')
+    calls = sorted([c for c in ast.walk(lp) if isinstance(c, ast.Call)
+                    and (call_name(c) or '').endswith('_get_ring_c2c')],
+                   key=lambda c: (c.lineno, c.col_offset))
+    if len(calls) != 2 or any(len(c.args) != 2 for c in calls):
+        raise AnalysisError('_find_duct_bypass_xy: expected two '
+                            '_get_ring_c2c calls in the loop')
+    try:
+        (a1, b1), (a2, b2) = [[g.conv(x, {iv: i}) for x in c.args]
+                              for c in calls]
+        b2_prev = g.conv(calls[1].args[1], {iv: i - c(1)})
+    except NotPolynomial as e:
+        raise AnalysisError('_find_duct_bypass_xy: %s' % e)
+
+    def req(ok, node, what, key):
+        ctx.require(ok, rule, fi, node, what, key='%s | %s' % (fi.full, key))
+    req(b1.equals(F(i, 0) - F(i - c(1), 1)), calls[0],
+        'bypass gap i-1 lies between the outer face of duct i-1 and the '
+        'inner face of duct i: thickness ftf[i][0] - ftf[i-1][1] (found %s)'
+        % src(calls[0].args[1]), 'bypass thickness')
+    req(b2.equals(F(i, 1) - F(i, 0)), calls[1],
+        'duct i: thickness ftf[i][1] - ftf[i][0] (found %s)'
+        % src(calls[1].args[1]), 'duct thickness')
+    req(a2.equals(b1), calls[1],
+        'the duct ring is placed from the bypass ring just placed: its '
+        '"previous thickness" must be that bypass thickness (found %s)'
+        % src(calls[1].args[0]), 'duct follows bypass')
+    req(a1.equals(b2_prev), calls[0],
+        'the bypass ring is placed from the duct ring placed last (duct '
+        'i-1): its "previous thickness" must be ftf[i-1][1] - ftf[i-1][0] '
+        '(found %s)' % src(calls[0].args[0]), 'bypass follows previous duct')
+    # the ring placed before the loop is duct 0
+    pre = [c_ for st in fi.node.body if st.lineno < lp.lineno
+           for c_ in ast.walk(st) if isinstance(c_, ast.Call)
+           and (call_name(c_) or '').endswith('_get_ring0_c2c')]
+    req(len(pre) == 1 and any(src(a) == '%s[0]' % ftf for a in pre[0].args),
+        pre[0] if pre else fi.node,
+        'the first ring placed is duct 0 (ftf[0])', 'first ring')
